@@ -74,9 +74,13 @@ unsafe impl<T> TrustedLen for DeBox<'_, T> {}
 
 pub type FwBox<'a, T> = Box<dyn TrustedLen<Item = T> + 'a>;
 
+pub type PlBox<'a, T> = Box<dyn Iterator<Item = T> + 'a>;
+
 pub enum S<'a, T> {
     De(DeBox<'a, T>),
     Fw(FwBox<'a, T>),
+    /// honest but untrusted iterator (loose size hint); only the plain collectors take it
+    Pl(PlBox<'a, T>),
 }
 
 impl<'a, T: 'a> S<'a, T> {
@@ -89,34 +93,48 @@ impl<'a, T: 'a> S<'a, T> {
     pub fn is_de(&self) -> bool {
         matches!(self, S::De(_))
     }
+    pub fn is_plain(&self) -> bool {
+        matches!(self, S::Pl(_))
+    }
     pub fn into_fw(self) -> FwBox<'a, T> {
         match self {
             S::De(d) => Box::new(d),
             S::Fw(f) => f,
+            S::Pl(_) => panic!("HARNESS: an untrusted stream was used where a trusted one is required"),
+        }
+    }
+    pub fn into_plain(self) -> PlBox<'a, T> {
+        match self {
+            S::De(d) => Box::new(d),
+            S::Fw(f) => Box::new(f),
+            S::Pl(p) => p,
         }
     }
     pub fn next(&mut self) -> Option<T> {
         match self {
             S::De(d) => d.next(),
             S::Fw(f) => f.next(),
+            S::Pl(p) => p.next(),
         }
     }
     pub fn next_back(&mut self) -> Option<T> {
         match self {
             S::De(d) => d.next_back(),
-            S::Fw(_) => panic!("harness: next_back on a forward-only stream"),
+            _ => panic!("HARNESS: next_back on a forward-only stream"),
         }
     }
     pub fn nth(&mut self, n: usize) -> Option<T> {
         match self {
             S::De(d) => d.nth(n),
             S::Fw(f) => f.nth(n),
+            S::Pl(p) => p.nth(n),
         }
     }
     pub fn size_hint(&self) -> (usize, Option<usize>) {
         match self {
             S::De(d) => d.size_hint(),
             S::Fw(f) => f.size_hint(),
+            S::Pl(p) => p.size_hint(),
         }
     }
 }
@@ -155,6 +173,9 @@ macro_rules! with_stream {
 impl<'a> Stream<'a> {
     pub fn is_de(&self) -> bool {
         with_stream!(self, s => s.is_de())
+    }
+    pub fn is_plain(&self) -> bool {
+        with_stream!(self, s => s.is_plain())
     }
     pub fn is_res(&self) -> bool {
         matches!(
